@@ -311,7 +311,9 @@ def compositions(iface, tree):
     api = m.Router(("/items/{i:int}", echo_app(iface, False, "int")), ("/d/{d:date}/{u:uuid}", echo_app(iface, False, "date-uuid")), ("/dec/{x:decimal}", echo_app(iface, False, "decimal")),
                    ("/any/{p:any}", echo_app(iface, False, "any")), ("/s/{name}", echo_app(iface, False, "str")), ("/", echo_app(iface, False, "root")))
     inner = m.Subpaths(("/docs", m.Pages(tree.dir)), ("/static", m.Files(tree.dir)), ("/api", api), ("/deep", m.Subpaths(("/er", m.Pages(tree.dir)), ("", leaf))), ("/ü", echo_app(iface, False, "umlaut")), ("", leaf))
-    hosts = m.Hosts((r"a\.com", inner), (r"(www\.)?b\.org(:\d+)?", m.Pages(tree.dir)), (r"caf.\.example\.com", echo_app(iface, False, "one-char")), (r"\w+\.example\.com", echo_app(iface, False, "word")))
+    hosts = m.Hosts((r"a\.com", inner), (r"(www\.)?b\.org(:\d+)?", m.Pages(tree.dir)), (r"caf.\.example\.com", echo_app(iface, False, "one-char")), (r"\w+\.example\.com", echo_app(iface, False, "word")),
+                    # the server's own name as a host pattern: only a Host header that says so selects it
+                    (r"testserver(:\d+)?", echo_app(iface, False, "server-name")))
     W = __import__("vf.props.c20", fromlist=["wrappers"]).wrappers(iface)
     wrapped = W["E"](W["M"](inner))
     handle = m.Files(tree.dir, handle_404=m.PlainTextResponse("custom 404", 404))
@@ -326,7 +328,7 @@ APP_PATHS = ["", "/", "/docs", "/docs/", "/docs/guide", "/docs/guide/", "/docs/g
              "/static", "/static/", "/static/file.txt", "/static/é.txt", "/static/guide", "/static/guide/index.html", "/static/../x", "/static/nofile", "/staticx",
              "/api", "/api/", "/api/items/7", "/api/items/x", "/api/d/2021-03-07/90478484-0988-45fc-91fe-757d90136892", "/api/d/2021-13-45/90478484-0988-45fc-91fe-757d90136892", "/api/dec/1.50", "/api/any/a/b", "/api/s/é",
              "/ü", "/ü/é", "/üx", "/deep", "/deep/er", "/deep/er/guide", "/deep/er/guide/", "/deep/other", "/other", "/file.txt", "/guide"]
-APP_HEADERS = [[("Host", "a.com")], [("Host", "b.org")], [("Host", "www.b.org:8080")], [("Host", "c.net")], [], [("Host", "caf\xe9.example.com")], [("Host", "caf\xc3\xa9.example.com")]]
+APP_HEADERS = [[("Host", "a.com")], [("Host", "b.org")], [("Host", "www.b.org:8080")], [("Host", "c.net")], [], [("Host", "caf\xe9.example.com")], [("Host", "caf\xc3\xa9.example.com")], [("Host", "")], [("Host", "testserver")], [("Host", "testserver:80")]]
 FUTURE = "Fri, 01 Jan 2100 00:00:00 GMT"  # later than any change time the scratch files can have
 COND = [[], [("If-None-Match", "*")], [("If-Modified-Since", "Tue, 14 Nov 2023 22:13:20 GMT")], [("If-Modified-Since", "Tue, 14 Nov 2000 22:13:20 GMT")], [("Range", "bytes=0-3")], [("Range", "")], [("If-Range", ""), ("Range", "bytes=1-2")],
         # both validators at once, in both header orders: the entity tag decides and the date is ignored
@@ -458,7 +460,7 @@ def run_shard(desc, tier):
         r.sample({"recipe": recs[0][0], "methods": ["GET", "HEAD"]})
     elif kind == "streams":
         from .c05 import stream_recipes, build_stream
-        for skind, n, raise_at in stream_recipes():
+        for skind, n, raise_at in stream_recipes(4):
             apps = {i: (lambda i=i: (lambda *a: build_stream(i, skind, n, raise_at)(*a)))() for i in ("wsgi", "asgi")}
             compare(r, f"stream:{skind} n={n} raise_at={raise_at}", apps, SV.AReq(), "GET", sse=skind == "sse")
         # constructor arguments of the streaming classes: no headers at all (several objects one after another), headers that
